@@ -22,13 +22,24 @@ class SimRaw(io.RawIOBase):
         self.orphan = None       # content of an unlinked-while-open file (POSIX: the handle keeps its inode)
 
     def readable(self):
-        return self.mode == "r"
+        return self.mode in ("r", "rw")
 
     def writable(self):
-        return self.mode == "w"
+        return self.mode in ("w", "rw")
 
     def seekable(self):
-        return False
+        return self.mode == "rw"
+
+    def seek(self, offset, whence=0):
+        if self.mode != "rw":
+            raise io.UnsupportedOperation("seek")
+        data = self.orphan if self.orphan is not None else self.fs.files.get(self.path, b"")
+        base = {0: 0, 1: self.pos, 2: len(data)}[whence]
+        self.pos = max(0, base + offset)
+        return self.pos
+
+    def tell(self):
+        return self.pos
 
     def fileno(self):
         return self.fd
@@ -301,6 +312,29 @@ class SimFS:
             raw = SimRaw(self, p, "w", fd)
             self.raws = [r for r in self.raws if not r.closed] + [raw]
             return io.BufferedWriter(raw)
+        if mode in ("r+b", "rb+", "ab"):
+            # update in place / append: the file must exist for r+b, is created for ab; nothing is truncated
+            self._y("open")
+            if p in self.dirs:
+                raise IsADirectoryError(errno.EISDIR, "Is a directory", path)
+            self._enotdir(p, path)
+            if p not in self.files:
+                if mode != "ab":
+                    raise FileNotFoundError(errno.ENOENT, "No such file or directory", path)
+                if posixpath.dirname(p) not in self.dirs:
+                    raise FileNotFoundError(errno.ENOENT, "No such file or directory", path)
+                self._fault("creat", p)
+                self.files[p] = bytearray()
+                self.trace.append(("creat", p))
+            fd = self.next_fd
+            self.next_fd += 1
+            self.fds[fd] = p
+            self.trace.append(("open", p))
+            raw = SimRaw(self, p, "rw" if mode != "ab" else "w", fd)
+            if mode == "ab":
+                raw.pos = len(self.files[p])
+            self.raws = [r for r in self.raws if not r.closed] + [raw]
+            return io.BufferedRandom(raw) if mode != "ab" else io.BufferedWriter(raw)
         raise ValueError(f"SimFS.open: unsupported mode {mode!r}")
 
     # ---- snapshots ---------------------------------------------------------
